@@ -21,7 +21,7 @@ Next == phase = "new" /\ phase' = "done" /\ UNCHANGED c
 Spec == Init /\ [][Next]_vars
 
 S(cc) == Num[cc.i].s
-Scope(cc) == IF HasDisputedWS(S(cc)) THEN <<>> ELSE <<Own>>
+Scope(cc) == <<Own>>      \* ES StrWhiteSpace exactly (U+FEFF stripped, U+0085 not)
 \* the number the string denotes, as a JSON number (when finite): s == that number must hold
 Denoted(cc) == StringToNumber(S(cc))
 ExportCases ==
